@@ -1,6 +1,8 @@
 package main
 
 import (
+	"database/sql"
+	"encoding/json"
 	"fmt"
 	"math"
 	"math/big"
@@ -134,6 +136,23 @@ func c08Text(w *rt.W, text string) {
 	}
 	if (err == nil) != (errB == nil) || got != gotB {
 		fail("string-bytes-disagree", fmt.Sprint(uint64(got), " ", err), fmt.Sprint(uint64(gotB), " ", errB))
+	}
+	// the input type does not matter: the same content as a named type of the program or of the standard library
+	for _, rule := range []size.Rule{0, size.DefaultRule, size.RuleEnableJSONStringForm | size.RuleEnableJSONObjectForm} {
+		g0, e0 := size.DefaultParser(text, rule)
+		for i, o := range []func() (size.Size, error){
+			func() (size.Size, error) { return size.DefaultParser(json.Number(text), rule) },
+			func() (size.Size, error) { return size.DefaultParser(json.RawMessage(text), rule) },
+			func() (size.Size, error) { return size.DefaultParser(sql.RawBytes(text), rule) },
+			func() (size.Size, error) { return size.DefaultParser(nStr(text), rule) },
+			func() (size.Size, error) { return size.DefaultParser(nBytes(text), rule) },
+		} {
+			g, e := o()
+			if (e == nil) != (e0 == nil) || g != g0 {
+				fail("input-type-changes-result", fmt.Sprint([]string{"json.Number", "json.RawMessage", "sql.RawBytes", "named string", "named []byte"}[i], " rule=", rule, ": ", uint64(g), " ", e), fmt.Sprint("string: ", uint64(g0), " ", e0))
+			}
+		}
+		w.Eval(6)
 	}
 	if err != nil && got != 0 {
 		fail("nonzero-with-error", fmt.Sprint(uint64(got)), "0")
@@ -341,6 +360,7 @@ func init() {
 }
 
 func runC08(c *rt.Ctx) {
+	sizeScanContract(c)
 	c.SetRule("for each of the 18 units and the empty unit: every value within +-1000 of floor((2^64-1)/multiplier) and of 0, all 2^k and 10^k, seeded values, through New[uint64] and the text parser; one mathematical value offered through all 12 numeric kinds and 12 derived types (negative, fractional, NaN, +-Inf, -0, 2^24+-1, 2^53+-1, 2^63, 2^64, kind maxima); " +
 		"grammar-generated texts with every separator kind/count and 0-3 surrounding spaces, negative/fraction/exponent/mangled-unit texts; Bytes[N] for 18 types at 0, each kind's max and max+1, float mantissa boundaries, 2^64-2048..2^64-1 and seeded values; constraint.Max/Min/SizeBits/IsSigned/IsFloat against math constants. " +
 		"distinct_nontrivial counts distinct (unit, value) cases within +-1000 of an overflow boundary (enumerated once each) plus distinct generated texts (by hash)")
@@ -453,6 +473,7 @@ func runC08(c *rt.Ctx) {
 		w.ClassN("kinds-sweep", 1)
 	})
 	c.Require("kinds-sweep", 1)
+	c.Require("number-literal-texts", 30)
 
 	nTexts := c.Pick(600000, 30000000)
 	c.Parallel("texts", 0, func(w *rt.W) {
@@ -471,6 +492,11 @@ func runC08(c *rt.Ctx) {
 					c08Text(w, t+pad)
 					c08Text(w, pad+t+pad)
 				}
+			}
+			// number literals as decoders hand them over (json.Number): fractions and exponents around 2^53 and 2^64
+			for _, t := range []string{"9007199254740993.0", "9007199254740993", "9007199254740992.0", "9007199254740993e0", "900719925474099.3e1", "18446744073709551615.0", "18446744073709551616.0", "1.8446744073709551615e19", "1.8446744073709551616e19", "1e19", "1e20", "2e0", "2.0", "2.5", "1e-1", "10e-1", "-1", "-1.0", "-0", "-0.0", "1E3", "1e+3", "0.0", "00", "01", "1.", ".1", "1e", "NaN", "Infinity", "1e999", "12345678901234567890", "123456789012345678.9e1"} {
+				c08Text(w, t)
+				w.ClassN("number-literal-texts", 1)
 			}
 			w.ClassN("fixed-negative-texts", 1)
 		}
